@@ -50,9 +50,10 @@ var filler = []string{"alpha", "beta", "gamma", "delta", "total", "north", "sout
 // genOpts switches generator features (used for attribution by counterfactual
 // and to keep a clean half of the case list).
 type genOpts struct {
-	StaleCovered  bool // covered cells of a merged region may carry a hidden value
-	RowRefOmitted bool // <row> elements may omit the optional r attribute
-	DamagedMerge  bool // <mergeCell> refs that name no A1 range (one corner unparseable) may be present; they merge nothing
+	StaleCovered   bool // covered cells of a merged region may carry a hidden value
+	RowRefOmitted  bool // <row> elements may omit the optional r attribute
+	CellRefOmitted bool // <c> elements may omit the optional r attribute where the position follows from the previous cell
+	DamagedMerge   bool // <mergeCell> refs that name no A1 range (one corner unparseable) may be present; they merge nothing
 }
 
 // genWorkbook builds one workbook and its oracle. Every aspect draws from its
@@ -411,6 +412,10 @@ func genWorkbook(c *fw.Ctx, idx int, o genOpts) (*ooxml.XWorkbook, *wbModel) {
 			f.add("row-r-attribute-omitted")
 		}
 		sh.RowOrder = rows
+		if o.CellRefOmitted && ro.Intn(3) == 0 {
+			sh.OmitCellR = true
+			f.add("cell-r-attribute-omitted")
+		}
 		sm.Rows = 0
 		for _, rr := range rows {
 			if rr+1 > sm.Rows {
